@@ -12,6 +12,9 @@ CONSTANTS
   KAmounts = {1000}
   KBorrowed <- NoTuples
   KMaxDepth = 4
+  SBanks <- NoBanks
+  SAmounts = {0}
+  SBorrowed <- NoTuples
   DBanks <- DBankSet
   DAmounts = {0, 1, 3, 1000, 123457, 900001}
   DCums <- DCumSet
